@@ -160,7 +160,7 @@ def src_graph(nodes, order):
 
 def replay_value(build_lines, expr, how, expected, got):
     """stand-alone script: build value x, make the copy with `how`, print both canon texts"""
-    body = "\n  ".join(build_lines)
+    body = "\n  ".join(list(build_lines))
     return (prelude_canon_source() + STRBYTES_SRC +
             "(defn run []\n  %s\n  (def x %s)\n  (def copy %s)\n"
             "  (print \"original: \" (canon x))\n  (print \"copy    : \" (canon copy))\n"
@@ -374,14 +374,10 @@ def imm_key(nodes, d, memo):
 
 def graph_shard(arg):
     """worker: enumerate one shard of the graph space, run it, compare. Returns a dict."""
-    max_nodes, kinds, shard, nshards, with_reg = arg
+    max_nodes, kinds, leaves, shard, nshards, lean = arg
     graphs = []
-    cnt = 0
     skipped = 0
-    for g in M.gen_graphs(max_nodes, kinds, GRAPH_LEAVES):
-        cnt += 1
-        if cnt % nshards != shard:
-            continue
+    for g in M.gen_graphs(max_nodes, kinds, leaves, shard=(shard, nshards)):
         order = M.build_order(g)
         if order is None:
             skipped += 1
@@ -389,8 +385,8 @@ def graph_shard(arg):
         graphs.append((g, order))
     items = []
     for g, order in graphs:
-        items.append("[:g %s [%s] %s]" % (M.jnodes(g), " ".join(map(str, order)),
-                                          "true" if M.is_pure_immutable(g) else "false"))
+        items.append("[:g %s [%s] %s %s]" % (M.jnodes(g), " ".join(map(str, order)),
+                                             "true" if M.is_pure_immutable(g) else "false", "true" if lean else "false"))
     res = run_items(DRIVER, items, timeout=600) if items else []
     out = dict(n=len(graphs), skipped=skipped, viols=[], outcomes=set(), evals=0, sizes={}, first=None, last=None,
                cyclic=0, shared=0)
@@ -400,11 +396,9 @@ def graph_shard(arg):
         exp = c.text(root)
         nn = len(g)
         out["sizes"][nn] = out["sizes"].get(nn, 0) + 1
-        if "#" in exp and re.search(r"#\d+(?!=)", exp.replace("#%d=" % 0, "#0=")):
-            pass
         if re.search(r"#\d+(?![=\d])", exp):
             out["shared"] += 1
-        build = src_graph(g, order)
+        build = LazyLines(g, order)
         if out["first"] is None:
             out["first"] = exp
         out["last"] = exp
@@ -455,6 +449,19 @@ def graph_shard(arg):
     return out
 
 
+class LazyLines:
+    """graph construction statements, generated only when a replay is written"""
+
+    def __init__(self, g, order):
+        self.g, self.order = g, order
+
+    def __add__(self, more):
+        return src_graph(self.g, self.order) + more
+
+    def __iter__(self):
+        return iter(src_graph(self.g, self.order))
+
+
 def kinds_sig(g):
     return "".join(n[0] for n in g)
 
@@ -462,16 +469,19 @@ def kinds_sig(g):
 def part_graphs(chk):
     viols = []
     full = ["A", "P", "B", "T", "S", "U"]
+    both = GRAPH_LEAVES
     if chk.quick:
-        plans = [("N<=3 all kinds", 3, full, 64)]
+        plans = [("N<=2 all kinds, leaves 7 \"s\", all variants", 2, full, both, 16, False),
+                 ("N<=3 kinds APTS, leaf \"s\", plain+registry variants", 3, ["A", "P", "T", "S"], [("lit", "s")], 64, True)]
     else:
-        plans = [("N<=3 all kinds", 3, full, 64),
-                 ("N<=4 one-slot nodes + arrays/tuples", 4, ["A", "P", "T1", "S1", "A1", "P1"], 256)]
-    for name, n, kinds, nshards in plans:
+        plans = [("N<=3 all kinds, leaves 7 \"s\", all variants", 3, full, both, 128, False),
+                 ("N<=4 kinds A P1 T1 S1, leaf 7, plain+registry variants", 4, ["A", "P1", "T1", "S1"], [("int", 7)], 128, True),
+                 ("N<=4 kinds A P T1 S1 A1 P1, leaf 7, plain+registry variants", 4, ["A", "P", "T1", "S1", "A1", "P1"], [("int", 7)], 256, True)]
+    for name, n, kinds, leaves, nshards, lean in plans:
         if chk.out_of_time(0.6):
             chk.cap("graphs: bound '%s' not run" % name)
             break
-        shards = [(n, kinds, s, nshards, True) for s in range(nshards)]
+        shards = [(n, kinds, leaves, s, nshards, lean) for s in range(nshards)]
         outs = pool_map(graph_shard, shards)
         total = sum(o["n"] for o in outs)
         sizes = {}
